@@ -133,7 +133,7 @@ pub struct StatVals<T: Sc> {
     pub sigma: T,
     pub lin_var: DVector<T>,
     pub nonlin_var: DVector<T>,
-    pub stats: Box<dyn Fn(T) -> Result<DVector<T>, String>>,
+    pub stats: Box<dyn Fn(T) -> Result<DVector<T>, String> + Send>,
 }
 
 pub trait DynP<T: Sc>: Send {
